@@ -8,6 +8,10 @@ from vflib.driver import Monitor, PHASE, opname
 
 PROP = 'C07'
 RULE = (
+    '(i) bounded-exhaustive: the COMPLETE decision trees of small games '
+    '(2-3 players, stacks of 1-8 chips, hold\'em NL/FL, PLO, Kuhn, razz, '
+    'single draw; every fold/call/raise amount/discard/show-or-muck '
+    'choice) are walked under the same monitors (vflib.explore); (ii) '
     'seeded random configurations of every family (12 predefined games + '
     'custom street lists, 1-3 boards, 2-9 players, hostile stacks) under '
     'uniformly random subsets of the 11 automations (plus none/all/'
@@ -35,7 +39,8 @@ TIME = {'quick': 70, 'thorough': 560}
 MIN_NONTRIVIAL = {'quick': 2000, 'thorough': 20000}
 REQUIRED = ('decisions_checked', 'terminal_states_checked',
             'allin_runout_hands', 'multi_runout_hands',
-            'phase_transitions_checked', 'constructor_cascades')
+            'phase_transitions_checked', 'constructor_cascades',
+            'trees_completed', 'explored_nodes')
 
 CUSTOMS = ('kuhn', 'draw5', 'stud5', 'greek', 'courchevel', 'holdem8',
            'plo8', 'badugi1', 'razzdraw', 'random')
@@ -243,6 +248,8 @@ def classify(ctx, v):
 def run_shard(seed, shard, of, tier, deadline):
     return hist.run_history_shard(
         PROP, seed, shard, of, tier, deadline, cases=CASES,
+        explore_s={'quick': 8, 'thorough': 100},
+        explore_nodes={'quick': 2500, 'thorough': 40000},
         gen_kwargs=gen_kwargs, make_monitors=make_monitors,
         nontrivial=nontrivial, classify=classify, pol_tweak=pol_tweak,
         cfg_filter=cfg_filter)
